@@ -10,3 +10,41 @@ package executor
 //@ func (*RemoteQuery).MarshalMstInfos
 //@   call .MarshalBinary on c.MstInfos[i].Opt
 //@     requires 0 <= i
+
+// ================================================================ C08: chunking must not change bucket assignment
+//@ prop C08
+
+//@ spec func chunk_time(c Iface, i int) int64
+//@ func iface Chunk.TimeByIndex
+//@   ensures result == chunk_time(recv, arg0)
+//@   assigns nothing
+//@ func iface Chunk.NumberOfRows
+//@   assigns nothing
+//@ func iface Chunk.Name
+//@   assigns nothing
+//@ func iface Chunk.Tags
+//@   assigns nothing
+
+// Two chunks continue the same GROUP BY time() bucket only if the next chunk's first row lies in the
+// half-open window [start, end) of the previous chunk's last row (a row exactly at `end` starts a new bucket).
+//@ func (*StreamAggregateTransform).isSameGroup
+//@   ghost ws int64 = 0
+//@   ghost we int64 = 0
+//@   ghost gotW bool = false
+//@   call .Window
+//@     set ws = ret0
+//@     set we = ret1
+//@     set gotW = true
+//@   ensures result && gotW ==> ws <= chunk_time(final(nextChunk), 0) && chunk_time(final(nextChunk), 0) < we
+
+// Fill fast path: the number of buckets of the query range is computed from the START of the first window
+// and the END of the last window.
+//@ func (*FillTransform).fill
+//@   ghost ws int64 = 0
+//@   ghost we int64 = 0
+//@   call .Window with trans.opt.StartTime
+//@     set ws = ret0
+//@   call .Window with trans.opt.EndTime
+//@     set we = ret1
+//@   call (time.Duration).Nanoseconds
+//@     requires windowStart == ws && windowEnd == we
